@@ -280,7 +280,8 @@ def oracle(c, res):
         if st[0] == "X":
             keep = len(b["scrollback"]) + b["cursor"][0] + (1 if c["keep"] else 0)
             if full[:keep] != full_b[:keep]:
-                return "step %d: leaving the context altered rows above the cursor" % i
+                return "step %d: leaving the context altered rows above the cursor%s" % (
+                    i, " or the kept last line (keep_last_line)" if c["keep"] else "")
             if any(row != blank_row(w) for row in full[keep:]):
                 return "step %d: leaving the context left text below the cursor: %r" % (i, full[keep:])
             if c["hide"] and not s["cursor"][3]:
@@ -511,6 +512,15 @@ def exhaustive(ctx):
         for keep in (0, 1):
             cases.append(dict(h=h, w=w, screen=screen, sb=[[("o", ())] * 3], cursor=(crow, 0), hide=True, keep=bool(keep), pyte=False,
                               steps=[("E",), ("R", (min(pr, max(n1 - 1, 0)), 1), a1), ("R", (min(pr, max(n2 - 1, 0)), 2), a2), ("X",)]))
+    # leaving with keep_last_line on/off with the cursor on EVERY row, in particular the bottom one (the kept line must
+    # survive: the screen scrolls one line), after 0-2 rendered rows
+    for h2, crow, n, keep in itertools.product((1, 2, 3), range(3), range(3), (0, 1)):
+        if crow >= h2:
+            continue
+        scr = [[(ch, ()) for ch in row] for row in ("pqr", "stu", "vwx")[:h2]]
+        arr = [group([(chr(65 + i), {})] * 2) for i in range(n)]
+        cases.append(dict(h=h2, w=3, screen=scr, sb=[[("o", ())] * 3], cursor=(crow, 0), hide=False, keep=bool(keep), pyte=False,
+                          steps=[("E",), ("R", (max(n - 1, 0), 1), arr), ("X",)]))
     ctx.exhaustive.append("3x3: initial cursor row 0-2 x first array height 0-5 x second array height 0-5 x cursor row x keep_last_line: %d" % len(cases))
     return cases
 
